@@ -45,6 +45,10 @@ type Case struct {
 	// FrameHandler: the receiving application also installed OnDataFrame (every data frame is handed over as
 	// well, in a buffer of its own); the messages must arrive exactly as without it
 	FrameHandler bool `json:"frame_handler,omitempty"`
+	// SenderPlain / ReceiverPlain: that endpoint's application called EnableWriteCompression(false) although
+	// compression was negotiated: the sender then sends plain frames, the receiver still accepts compressed ones
+	SenderPlain   bool `json:"sender_write_compression_off,omitempty"`
+	ReceiverPlain bool `json:"receiver_write_compression_off,omitempty"`
 }
 
 var frameHandlerOn bool
@@ -169,6 +173,10 @@ func runCaseInner(c Case) vlib.Result {
 	if c.Pipeline == "nbio-nbio" {
 		sconn := &vlib.FakeConn{}
 		sender, _ := newConn(c.SenderClient, c.Compress, c.Level, c.FrameLimit, sconn, nil, c.Alloc)
+		if c.SenderPlain {
+			sender.EnableWriteCompression(false)
+			res.Classes = append(res.Classes, "sender switched write compression off")
+		}
 		for i, m := range c.Msgs {
 			p := payloadOf(m)
 			mt := websocket.BinaryMessage
@@ -228,8 +236,8 @@ func runCaseInner(c Case) vlib.Result {
 					return res
 				}
 				compressedMsg = f.R1
-				if f.R1 != c.Compress {
-					res.Err = fmt.Errorf("frame %d: RSV1=%v on the first frame but compression negotiated=%v", fi, f.R1, c.Compress)
+				if f.R1 != (c.Compress && !c.SenderPlain) {
+					res.Err = fmt.Errorf("frame %d: RSV1=%v on the first frame but compression negotiated=%v, switched off by the sending application=%v", fi, f.R1, c.Compress, c.SenderPlain)
 					return res
 				}
 				inMsg = true
@@ -325,6 +333,10 @@ func runCaseInner(c Case) vlib.Result {
 		res.Classes = append(res.Classes, "receiver with OnMessage and OnDataFrame")
 	}
 	receiver, _ := newConn(!c.SenderClient, c.Compress, c.Level, c.FrameLimit, rconn, &gotMsgs, c.Alloc)
+	if c.ReceiverPlain {
+		receiver.EnableWriteCompression(false)
+		res.Classes = append(res.Classes, "receiver switched write compression off")
+	}
 	for si, s := range segments(c, wire) {
 		cp := append([]byte(nil), s...)
 		if err := receiver.Parse(cp); err != nil {
@@ -406,6 +418,10 @@ func gen(big int) func(t *rapid.T) Case {
 		c.Level = rapid.IntRange(-2, 9).Draw(t, "level")
 		c.Alloc = rapid.SampledFrom([]string{"", "", "aligned", "moving"}).Draw(t, "alloc")
 		c.FrameHandler = rapid.IntRange(0, 3).Draw(t, "framehandler") == 0
+		if c.Compress {
+			c.SenderPlain = rapid.IntRange(0, 5).Draw(t, "senderplain") == 0
+			c.ReceiverPlain = rapid.IntRange(0, 3).Draw(t, "receiverplain") == 0
+		}
 		c.FrameLimit = rapid.SampledFrom([]int{1, 2, 125, 126, 1024, 32768}).Draw(t, "framelimit")
 		c.Masked = c.SenderClient
 		if c.Pipeline == "ref-nbio" && rapid.IntRange(0, 5).Draw(t, "flipmask") == 0 {
